@@ -59,6 +59,8 @@ func (p *c06) Describe(tier string, seed int64, idx int) string {
 type c06Machine struct {
 	src      string
 	m        *xpath.Machine
+	listing  string // PrintMachine() taken when the machine is first used in a round
+	listed   bool
 	inflight int32
 	maxSeen  int32
 	uses     int64
@@ -220,7 +222,8 @@ func c06Exec(o c06Op, concurrent bool) string {
 		return c06Compile(c06Sources[o.src])
 	default:
 		cm := c06Machines[o.mach]
-		t := &xpmock.Tree{Default: c06Table(o), FailAt: o.failAt}
+		// (one run in four has the library's debug trace switched on: a traced run is a run like any other)
+		t := &xpmock.Tree{Default: c06Table(o), FailAt: o.failAt, Debug: (o.failAt+o.nonce+o.table+o.mach)%4 == 1}
 		if concurrent {
 			n := atomic.AddInt32(&cm.inflight, 1)
 			for {
@@ -294,6 +297,11 @@ func (p *c06) Run(tier string, seed int64, idx int) core.CaseResult {
 	} else {
 		res.Ev("rounds_with_oracle_after_the_concurrent_phase", 1)
 	}
+	for _, mi := range hot {
+		if cm := c06Machines[mi]; !cm.listed {
+			cm.listing, cm.listed = cm.m.PrintMachine(), true
+		}
+	}
 	// concurrent round
 	xpath.VerifSetYield(idx % 3)
 	for _, mi := range hot {
@@ -355,6 +363,14 @@ func (p *c06) Run(tier string, seed int64, idx int) core.CaseResult {
 	}
 	if idx%2 == 1 {
 		sequential()
+	}
+	// a compiled machine is immutable: its listing after the round is its listing before it
+	for _, mi := range hot {
+		cm := c06Machines[mi]
+		if now := cm.m.PrintMachine(); cm.listed && now != cm.listing {
+			res.Fail("C06/machine-changed-by-its-runs", jsonStr(map[string]interface{}{"round": idx, "expr": cm.src}), "listing before the round:\n"+cm.listing+"\nafter it:\n"+now)
+		}
+		res.Ev("machine_listings_compared", 1)
 	}
 	res.Ev("rounds", 1)
 	overlap := int32(0)
